@@ -5,23 +5,45 @@
 using namespace vf;
 namespace WB = WorldBuilder;
 
+// the same world with other numbers: every temperature-like parameter moved, fractions halved, velocities scaled - same geometry,
+// same models, different answers at every point
+static void perturb_parameters(J &j)
+{
+  if (j.is_obj())
+    for (auto &kv : j.o)
+      {
+        J &v = kv.second;
+        if (v.is_num() && (kv.first == "temperature" || kv.first == "potential mantle temperature" || kv.first == "top temperature" || kv.first == "bottom temperature" || kv.first == "center temperature" || kv.first == "side temperature" || kv.first == "surface temperature"))
+          { if (v.num() >= 0) v = J(v.num() + 137.0); }
+        else if (v.is_num() && (kv.first == "plate velocity" || kv.first == "spreading velocity" || kv.first == "subducting velocity")) v = J(v.num() * 1.25);
+        else if (kv.first == "fractions" && v.is_arr()) { for (auto &e : v.a) if (e.is_num()) e = J(e.num() * 0.5); }
+        else perturb_parameters(v);
+      }
+  else if (j.is_arr()) for (auto &e : j.a) perturb_parameters(e);
+}
+
 static J gen_history(Chooser &ch, bool two_d)
 {
   J c = J::obj();
-  const int nworlds = static_cast<int>(ch.range(1, 3));
+  // 35%: two sibling worlds (same file, other numbers) that receive every request one after the other: whatever the library keeps
+  // between calls - per thread, per process, keyed by position - is offered the chance to answer for the wrong world
+  const bool siblings = ch.chance(35);
+  const int nworlds = siblings ? 2 : static_cast<int>(ch.range(1, 3));
   J worlds = J::arr();
   std::vector<g::GW> gws;
   for (int i = 0; i < nworlds; ++i)
     {
       g::Opt o;
       o.min_features = 1; o.max_features = 5;
-      o.operations = true; o.model_ranges = true; o.force_surface = true; o.global_constants = ch.flip();
+      o.operations = true; o.model_ranges = true; o.force_surface = true; o.global_constants = ch.flip(); o.water = true;
       o.cross_section = two_d ? 2 : 1;
-      g::GW w = g::gen_world(ch, o);
+      g::GW w = (siblings && i == 1) ? gws[0] : g::gen_world(ch, o);
+      if (siblings && i == 1) perturb_parameters(w.root);
       worlds.push(J(w.root.dump()));
       gws.push_back(w);
     }
   c["worlds"] = worlds;
+  c["siblings"] = siblings;
   J steps = J::arr();
   const int n = static_cast<int>(ch.range(3, 25));
   for (int i = 0; i < n; ++i)
@@ -48,6 +70,7 @@ static J gen_history(Chooser &ch, bool two_d)
       s["q"] = q;
       s["props"] = g::gen_props(ch, 8);
       steps.push(s);
+      if (siblings) { J s2 = s; s2["w"] = 1 - static_cast<int>(wi); steps.push(s2); } // the same request to the sibling, immediately
     }
   c["steps"] = steps;
   return c;
